@@ -3,6 +3,7 @@ package main
 // Per-function verification driver: entry assumptions, exit obligations.
 
 import (
+	"os"
 	"fmt"
 	"go/token"
 	"go/types"
@@ -219,7 +220,6 @@ func (p *Program) verifyFunction(name string, tier string, prop string, sink fun
 				}
 			}
 		}
-		x.applyInstances(s, fnApplies(fc))
 		for _, cl := range fc.clauses("let") {
 			env := x.specEnvFor(s, "let")
 			v, err := env.evalVal(cl.Expr)
@@ -229,6 +229,7 @@ func (p *Program) verifyFunction(name string, tier string, prop string, sink fun
 			}
 			entryFrame.lets[cl.Name] = v.v
 		}
+		x.applyInstances(s, fnApplies(fc))
 	}
 	if fieldC != nil {
 		env := x.fieldEnv(s, fieldC, f, args, nil)
@@ -495,4 +496,37 @@ func fnApplies(fc *FuncContract) []*Clause {
 		}
 	}
 	return out
+}
+
+// axiomConsistency builds the query "all navigator-tree axioms used in this run hold in the sample
+// document of theory/sample_tree.model": satisfiable, or the axioms are contradictory. Functions
+// verified under `theory nav` have no cover queries of their own (satisfiability over the quantified
+// theory does not terminate in general), so this is their vacuity guard.
+func (p *Program) axiomConsistency(names []string, modelFile string) (string, error) {
+	x := &Exec{p: p, mode: "bv", sink: func(*Obligation) {}, maxPaths: 1, tier: "quick", assumed: map[string]bool{}}
+	x.needTheory = true
+	s := &State{heap: map[string]T{}, heap0: map[string]T{}, lits: map[string]T{}, locks: map[string]string{}, ghost: map[string]T{}, dirty: map[string]bool{}, escaped: map[string]bool{}, navOwner: map[string]string{}}
+	for _, n := range names {
+		ax := p.Ctr.Axioms[n]
+		if ax == nil {
+			continue
+		}
+		env := &specEnv{x: x, s: s, where: "axiom"}
+		t, err := env.evalBool(ax.Expr)
+		if err != nil {
+			return "", fmt.Errorf("axiom %s: %v", n, err)
+		}
+		s.assume(t)
+	}
+	b, err := os.ReadFile(modelFile)
+	if err != nil {
+		return "", err
+	}
+	q := x.query(s, T{}, false)
+	// the sample document goes in front of (check-sat)
+	i := strings.LastIndex(q, "(check-sat)")
+	if i < 0 {
+		return "", fmt.Errorf("no check-sat in query")
+	}
+	return q[:i] + string(b) + "\n" + q[i:], nil
 }
